@@ -28,6 +28,9 @@ def run(ctx):
     tr = ctx.record("arith-random", "expr", ["-mode", "arith", "-n", 24000 if th else 700], timeout=1500)
     ctx.validate("arith-random-validate", "trace/Trace_Expr.tla", "trace/Trace_Expr.cfg", tr, "expr", shards=16 if th else 4, timeout=3400)
     ctx.selftest_binding("arith-random", "trace/Trace_Expr.tla", "trace/Trace_Expr.cfg", tr, "expr", corrupt)
+    # short decimals: the float64 handed back is the nearest one (a conversion that rounds twice fails on about one value in 2^11)
+    sh = ctx.record("arith-short", "expr", ["-mode", "short", "-n", 200000 if th else 16000, "-seed", ctx.seed * 100 + 41])
+    ctx.validate("arith-short-validate", "trace/Trace_Expr.tla", "trace/Trace_Expr.cfg", sh, "expr", shards=16 if th else 8, timeout=3400)
     tr2 = ctx.record("arith-data", "expr", ["-mode", "data", "-n", 8000 if th else 600])
     ctx.validate("arith-data-validate", "trace/Trace_Expr.tla", "trace/Trace_Expr.cfg", tr2, "expr", shards=8 if th else 2, timeout=3400)
     # "decimal literals enter the computation with exactly the value they print as": seeded random spellings (digit separators,
